@@ -55,12 +55,34 @@ Added probe family (round 8, harness/v8_c01.py, `wide_magnitudes` / `wide_standa
     (dynamically sized) structure set to min-1 / max+1 / max+2**bits / +-2**200, or a uleb128 leaf to a negative number, must make
     dumps raise.  The same for the wide types on their own and for stand-alone array types of them (T[k], T[None], T[EOF],
     T[K2 + 1], typedef'd, one and two dimensional).
+
+Added probe family (round 9, harness/v9_c01.py, `bit_runs`):
+  * BIT-FIELD RUNS THAT CHANGE STORAGE TYPE WITHOUT CHANGING SIZE, walked through the public entry points.  The generator above draws
+    one storage type per run of bit-fields; here a run is 2..5 segments of 1..3 bit-fields whose storage types all have ONE width
+    (8: uint8 / int8 / char, 16: uint16 / int16, 24, 32, 48, 64, 128 - as plain types, enums and flags over them, each spelled by its
+    canonical name, a built-in alias read off the live type table or a user typedef) and change from segment to segment: to another
+    type of the same width (a new unit must be started by the layout, the writer, the interpreted reader and the compiled reader
+    alike), to another spelling / an enum over the same type (the unit must be continued), rarely to another width, now and then
+    with an ordinary member in between; most segments leave their unit partly filled, some fill it exactly.  Ordinary members (and
+    sometimes a dynamically sized one) precede the run and ordinary members follow it, so a reader that takes a different number
+    of units than the writer shows in their values and in the consumed length.  The structure stands on its own or is a named
+    member / array element / anonymous member of an outer structure (inline or as a named definition the outer one refers to).
+    Definition entry points: cs.load, cs.loadfile (a real file), the legacy parser (DEF_LEGACY; flat packed definitions), the API
+    (cs._make_struct from Field objects, or T.add_field field by field; compiler.compile; cs.add_type); interpreted / compiled,
+    packed / aligned, byte order spelled '<' '>' '!' '@' '=', every pointer width.  Values: parsed from arbitrary bytes, and
+    constructed from keyword arguments (bit-fields 0 / all ones / top bit / alternating / random, plain ints, instances of the storage
+    type, enum instances).  Predicate: parse(dumps(v)) == v and consumed == len(dumps(v)) by check_roundtrip / check_constructed
+    (model write / read compared), and again through drawn pairs of calling conventions - dump by v.dumps() / T.dumps(v) /
+    v.write(stream) / T.write(stream, v) (also at stream offsets 3 and 32), parse by T(x) / T.read(x) / cs.read('T', x) with x a
+    bytes / bytearray / memoryview / BytesIO / real file object / BufferedReader, T.reads(x), T.read at stream offsets 3 and 32.
+    Refusals: a bit-field of the run set to 2**bits, 2**bits + 1, 2**width, -1 must make dumps raise.  Known findings met and
+    classified: F23 (aligned runs on 24 / 48 bit storage types), F43 (aligned structure read / written at stream offset 3).
 """
 from __future__ import annotations
 
 import itertools
 
-from .. import defs, impl, refimpl, s1_hist, s1_mixed, u1_arrays, v4_c01, v8_c01
+from .. import defs, impl, refimpl, s1_hist, s1_mixed, u1_arrays, v4_c01, v8_c01, v9_c01
 from ..common import Result, mkrng
 from ..structprops import Engine, load, real_parse, small_unit_bits, rand_bytes, has_eof, has_union, union_dump_incomplete, union_anon_nested
 
@@ -406,8 +428,15 @@ def run(env) -> Result:
                 "encodings are 1..37 bytes long (mostly 9, 10, 11, 12, 16, 19+: around 2**63, 2**64, 2**69, 2**70, 2**77, 2**126, 2**128 and "
                 "their negatives) and fixed-width values at the edges / of full width; constructed from keywords and parsed from an "
                 "independent textbook encoding (also non-minimal LEB128); out-of-range leaves of dynamically sized structures and negative "
-                "uleb128 must be refused; the same for the stand-alone types and array types of them. distinct = (definition, config, value "
-                "bytes); non-trivial = >= 2 fields or a composite field and >= 2 bytes")
+                "uleb128 must be refused; the same for the stand-alone types and array types of them. Plus bit-field runs that change storage "
+                "type without changing size: 2..5 segments of bit-fields over the types of one width (uint8 / int8 / char / enums and flags "
+                "over them; 16, 24, 32, 48, 64, 128 bit likewise; canonical names, built-in aliases, user typedefs), units left partly "
+                "filled, ordinary members before and behind, alone or as member / array element / anonymous member; brought in by cs.load, "
+                "cs.loadfile, the legacy parser, cs._make_struct / add_field; x {<, >, !, @, =} x {packed, aligned} x {interpreted, compiled}; "
+                "values parsed from random bytes and constructed from keywords; the predicate also through drawn pairs of calling "
+                "conventions (v.dumps / T.dumps / v.write / T.write at stream offsets 0, 3, 32; T(x) / T.read(x) / T.reads(x) / cs.read(name, "
+                "x) over bytes, bytearray, memoryview, BytesIO, a real file, a BufferedReader); bit-field values that do not fit must be "
+                "refused. distinct = (definition, config, value bytes); non-trivial = >= 2 fields or a composite field and >= 2 bytes")
     eng = Engine(env, res, "C01")
     rnd = mkrng(env["seed"], "c01")
     tier = env["tier"]
@@ -489,6 +518,8 @@ def run(env) -> Result:
     v8_c01.wide_magnitudes(eng, res, mkrng(env["seed"], "c01-magnitudes"), tier,
                            check_roundtrip=check_roundtrip, check_constructed=check_constructed, load=load)
     v8_c01.wide_standalone(eng, res, mkrng(env["seed"], "c01-magnitudes-standalone"), tier)
+    eng.flush()
+    v9_c01.bit_runs(eng, res, mkrng(env["seed"], "c01-bit-runs"), tier, check_roundtrip=check_roundtrip, check_constructed=check_constructed)
     eng.flush()
     return res
 
